@@ -16,7 +16,7 @@ m = {
         "add_only": True,
     },
     "engines": [{"name": "coq-model", "path": "coq/", "serves_properties": sorted(PROPS),
-                 "kind_free_text": "Gallina model + theorems (Coq 8.16.1), Tie A translators tools/src2v.py, src2v2*.py (parser rustmini.py), Tie B harness/ (Rust) and tools/{cli,keys}/*.py + vm_compute"}],
+                 "kind_free_text": "Gallina model + theorems (Coq 8.16.1), Tie A translators tools/src2v.py, src2v2*.py, src2v3_*.py (parser rustmini.py), Tie B harness/ (Rust) and tools/{cli,keys}/*.py + vm_compute"}],
     "checks": [], "not_applicable": [],
     "notes": "see DESIGN.md; ./check <id> [--tier quick|thorough] [--seed N] [--replay FILE]; known findings in known_findings.json",
 }
@@ -32,7 +32,7 @@ for p in props:
             "replay_cmd_template": "./check %s --replay {path}" % pid,
             "engine": "coq-model",
             "level_claimed": {"category": "proof", "text": c.get("level_text", "theorems about the Gallina model proved for all inputs/histories (Coq kernel); the model is tied to the source by translated kernels and constants (Tie A) and by correspondence with the real code on generated and exhaustive scaled-constant inputs (Tie B)"), "design_ref": "DESIGN.md section 4, " + pid},
-            "level_note": c.get("level_note", "trusted: Coq kernel + vm_compute, the translators tools/src2v.py, src2v2*.py and rustmini.py (Tie A), the Rust harness, job scripts and their oracles (Tie B); the Rust source itself is modelled, not verified"),
+            "level_note": c.get("level_note", "trusted: Coq kernel + vm_compute, the translators tools/src2v.py, src2v2*.py, src2v3_*.py and rustmini.py with their primitive tables (Tie A), the Rust harness, job scripts and their oracles (Tie B); the Rust source itself is modelled, not verified"),
             "technique": c.get("technique", "machine-checked proof in Coq + model/implementation correspondence"),
         })
     else:
